@@ -130,7 +130,7 @@ def judge(case):
                 observe(cur, ii, evs[e][0], "instance #%d after cycle A->B->A" % e)
             else:
                 observe(evs[e][1], ii, evs[e][0], "instance #%d call at step %d" % (e, n))
-                if ii % 2:
+                if ii % 2 and not case.get("plain"):
                     observe(evs[e][1], ii + 1, evs[e][0], "instance #%d call at step %d" % (e, n))
                     observe(evs[e][1], ii, evs[e][0], "instance #%d repeated call at step %d" % (e, n))
     except Exception as ex:
@@ -253,9 +253,25 @@ def k1_probe(rec):
     return True
 
 
+def fixed_histories():
+    """==-equal values that print differently, called in opposite orders on two instances of the same source"""
+    vals = [1, True, 1.0, 0, False, -0.0, 0.0, 2, 2.0, 10 ** 20, 1e20, "", "1", None]
+    for ng, salt in ((16, None), (7, "s1"), (64, "")):
+        prog = M.program("exp", M.ret([(M.lit_str("g%d" % j), "1") for j in range(ng)]), salt=salt, splitters=["uid"])
+        inputs = [M.enc_inputs({"uid": v}) for v in vals]
+        n = len(vals)
+        ops = [["call", 0, 0, i] for i in range(n)] + [["new", 0, 0, n - 1]] + [["call", 1, 0, i] for i in reversed(range(n))]
+        ops += [["recompile_same", 0, 0, 3], ["cycle", 1, 0, 5]] + [["call", 0, 0, i] for i in (2, 1, 0, 6, 5, 4, 3)]
+        yield {"sources": [prog, prog], "inputs": [inputs, inputs], "ops": ops, "plain": True}
+
+
 def run(ctx, rec):
     if ctx.shard == 0 and not k1_probe(rec):
         return
+    if ctx.shard == 0:
+        runner.direct_run(ctx, rec, "fixed-histories", fixed_histories(), judge)
+        if rec.violations:
+            return
     runner.hyp_run(ctx, rec, "in-process-histories", histories(), judge, ctx.n(120, 800))
     if rec.violations:
         return
